@@ -138,6 +138,9 @@ def _node_params(m: FuncInfo) -> tuple[str | None, str | None]:
     return None, None
 
 
+REBUILD_HELPERS = {"update_call_target", "update_arg_target", "add_arg_to_call", "update_assign_rhs"}
+
+
 def lost_update_sites(ctx, tm):
     """(method, node, how) where a hook's result is built from the original node although a fix may sit inside."""
     out = []
@@ -169,6 +172,11 @@ def lost_update_sites(ctx, tm):
                 la = last_attr(n.func)
                 if la == "replace_args" and n.args and isinstance(n.args[0], ast.Name) and n.args[0].id == orig:
                     out.append((m, n, "replace_args(original)", f"`{unparse(n)[:50]}` rebuilds the argument list from the original (un-rewritten) arguments"))
+                elif la in REBUILD_HELPERS and n.args and isinstance(n.args[0], ast.Name) and n.args[0].id == orig and isinstance(n.func, ast.Attribute) \
+                        and isinstance(n.func.value, ast.Name) and n.func.value.id == "self":
+                    # the framework's rebuild helpers return `<first argument>.with_changes(...)`: given the original node they hand
+                    # back a copy of the original with the edit, without whatever was fixed inside it
+                    out.append((m, n, f"{la}(original)", f"`{unparse(n)[:50]}` rebuilds the node from the original (un-rewritten) one"))
                 elif la == "with_changes" and isinstance(n.func, ast.Attribute) and isinstance(n.func.value, ast.Name) and n.func.value.id == orig:
                     out.append((m, n, "original.with_changes", f"`{unparse(n)[:50]}` rebuilds the node from the original"))
             if isinstance(n, ast.Starred) and isinstance(n.value, ast.Attribute) and isinstance(n.value.value, ast.Name) and n.value.value.id == orig and n.value.attr in ("args", "body", "elements"):
@@ -237,6 +245,68 @@ def rule_framework_dispatch_keeps_updates(ctx, rep, rule_id="R-LOST-UPDATE"):
         raise AnalysisError(f"only {n} returns found in the framework dispatch methods (anchor vanished)")
 
 
+def rule_scan_targets(ctx, rep, rule_id="R-SCAN-TARGETS"):
+    """Shared with C05: the detector scans the files that were selected, not 'the directory' (semgrep applies its own ignore rules to a
+    directory scan and none to explicit targets)."""
+    from ..logic import consistent_assignments_state
+
+    rep.rule(
+        rule_id,
+        "codemodder.semgrep.run hands semgrep the selected files themselves; the project directory is used as the target only when no file "
+        "list was given (the fallback is reached only under the fact that the file list is empty) -- any other condition (size limits, ...) "
+        "makes semgrep's own ignore list decide which selected files are scanned, and a reported location in a skipped file is never fixed",
+        min_instances=1,
+    )
+    fn = ctx.prog.func("codemodder.semgrep.run")
+    r = ctx.resolver(fn)
+    pp = fn.params()
+    files_p = next((p for p in pp if "file" in p.lower() and "yaml" not in p.lower()), None)
+    if files_p is None:
+        raise AnalysisError("codemodder.semgrep.run: the parameter carrying the files to scan was not found")
+    fa = ctx.flow(fn)
+    pm = ctx.parents(fn)
+    dirs = [n for n in walk_no_nested(fn.node) if isinstance(n, ast.Attribute) and n.attr == "directory" and isinstance(n.ctx, ast.Load)]
+    if not dirs:
+        rep.instance(rule_id, fn.qname, fn.loc(), True, detail="no directory fallback at all")
+        return
+
+    def atom(e):
+        # EMPTY: the file list (or a one-to-one image of it) is falsy
+        x = e
+        if isinstance(x, ast.Name):
+            if x.id == files_p:
+                return "!EMPTY"
+            y = r.expand(x)
+            if y is not x:
+                from .c10 import _maps_all
+
+                inner = y
+                if isinstance(inner, ast.BoolOp) and isinstance(inner.op, ast.Or):
+                    inner = inner.values[0]
+                if _maps_all(inner, files_p) or (isinstance(inner, (ast.ListComp, ast.GeneratorExp)) and len(inner.generators) == 1 and not inner.generators[0].ifs
+                                                  and _maps_all(inner.generators[0].iter.values[0] if isinstance(inner.generators[0].iter, ast.BoolOp) else inner.generators[0].iter, files_p)):
+                    return "!EMPTY"
+        return None
+
+    for d in dirs:
+        par = pm.get(id(d))
+        # `files or [directory]`: the fallback operand of an `or` whose first operand is the file list
+        cur, child, ok = par, d, None
+        while cur is not None and not isinstance(cur, ast.stmt):
+            if isinstance(cur, ast.BoolOp) and isinstance(cur.op, ast.Or) and cur.values and cur.values[0] is not child and any(x is child for v in cur.values[1:] for x in ast.walk(v)):
+                ok = atom(cur.values[0]) == "!EMPTY"
+                break
+            child, cur = cur, pm.get(id(cur))
+        if ok is None:
+            st = d
+            while st is not None and not isinstance(st, ast.stmt):
+                st = pm.get(id(st))
+            envs = consistent_assignments_state(fa.state_at(st), atom, ["EMPTY"]) if st is not None else []
+            ok = envs == [{"EMPTY": True}]
+        rep.check(rule_id, fn.qname, fn.loc(d), bool(ok), "directory-fallback",
+                  f"the project directory becomes a semgrep target on a path where the list of selected files (`{files_p}`) is not known to be empty")
+
+
 def rule_no_swallow(ctx, rep):
     rep.rule(
         "R-NO-SWALLOW",
@@ -284,6 +354,7 @@ def check(ctx, rep):
     from .c07 import rule_no_dup_keyword
 
     rule_no_dup_keyword(ctx, rep)
+    rule_scan_targets(ctx, rep)
     rep.not_covered += [
         "agreement of semgrep positions with libcst positions for all spellings (line/column matching)",
         "semgrep's matching semantics in general (metavariable unification, taint propagation)",
